@@ -343,6 +343,10 @@ pub fn gen_c04(rng: &mut Prng, run: u64, t: &Tier) -> Vec<Ev> {
         } else if choice == 4 {
             ev.push(Ev::SealMany { c: 0, n: rng.range(2, 6) as u32, len: rng.range(0, 33), inplace: rng.chance(1, 2) });
             continue;
+        } else if choice == 5 {
+            // an export (a &self operation) between two seals must not disturb the sequence
+            let len = *rng.pick(&[0usize, 1, 16, 32, 64, 100, 8160, 8161, 70000]);
+            ev.push(Ev::Export { c: 0, role: Role::S, ctx: b(rng.var_bytes(40)), len });
         }
         let k = rng.range(1, 3);
         for _ in 0..k {
